@@ -1156,7 +1156,11 @@ func (h *hist) stateOracle(o opSpec, where string, after snap, denomOf func(c, k
 		if ld, f := h.accD[t.id]; f {
 			pend[ld].Add(pend[ld], new(big.Int).Add(t.amount, t.tax))
 			if d != ld {
-				h.violate("C01:pending-transfer-denom-changed", fmt.Sprintf("after %s: transfer %d locked %s but the denom table now maps its contract to %v: refund / burn would be in another denom", where, t.id, denoms[ld], d))
+				id := "C01:pending-transfer-denom-changed"
+				if o.Kind == "mapgov" || o.Kind == "mapadmin" {
+					id += "/" + o.Kind // the unguarded governance path is a known finding; nothing else is
+				}
+				h.violate(id, fmt.Sprintf("after %s: transfer %d locked %s but the denom table now maps its contract to %v: refund / burn would be in another denom", where, t.id, denoms[ld], d))
 			}
 		}
 	}
